@@ -401,52 +401,52 @@ pub(crate) fn get_conversions() -> Vec<Conversion> {
         Conversion {
             hiragana: "ぁ".into(),
             katakana: "ァ".into(),
-            alphabets: vec!["la".to_string()],
+            alphabets: vec!["xa".to_string()],
         },
         Conversion {
             hiragana: "ぃ".into(),
             katakana: "ィ".into(),
-            alphabets: vec!["li".to_string()],
+            alphabets: vec!["xi".to_string()],
         },
         Conversion {
             hiragana: "ぅ".into(),
             katakana: "ゥ".into(),
-            alphabets: vec!["lu".to_string()],
+            alphabets: vec!["xu".to_string()],
         },
         Conversion {
             hiragana: "ぇ".into(),
             katakana: "ェ".into(),
-            alphabets: vec!["le".to_string()],
+            alphabets: vec!["xe".to_string()],
         },
         Conversion {
             hiragana: "ぉ".into(),
             katakana: "ォ".into(),
-            alphabets: vec!["lo".to_string()],
+            alphabets: vec!["xo".to_string()],
         },
         Conversion {
             hiragana: "ゃ".into(),
             katakana: "ャ".into(),
-            alphabets: vec!["lya".to_string()],
+            alphabets: vec!["xya".to_string()],
         },
         Conversion {
             hiragana: "ゅ".into(),
             katakana: "ュ".into(),
-            alphabets: vec!["lyu".to_string()],
+            alphabets: vec!["xyu".to_string()],
         },
         Conversion {
             hiragana: "ょ".into(),
             katakana: "ョ".into(),
-            alphabets: vec!["lyo".to_string()],
+            alphabets: vec!["xyo".to_string()],
         },
         Conversion {
             hiragana: "っ".into(),
             katakana: "ッ".into(),
-            alphabets: vec!["ltu".to_string()],
+            alphabets: vec!["xtu".to_string()],
         },
         Conversion {
             hiragana: "ゎ".into(),
             katakana: "ヮ".into(),
-            alphabets: vec!["lwa".to_string()],
+            alphabets: vec!["xwa".to_string()],
         },
         Conversion {
             hiragana: "ゐ".into(),
